@@ -6,7 +6,8 @@ conversion) and, as they are created by actions, a proxy `p = s.proxy()`, a seco
 view `v = s['l']`.  The memo (`_property_cache`, `_property_cache_key`, also of every phase view held in `_streams`) is part
 of the canonical state.  Actions are property reads on any of those objects and mutations through every public mutator; the
 mutation alphabet contains pairs that restore an earlier value (T: A -> B -> A, a flow 1 -> 3 -> 1, scale 2 / 0.5), mutations
-that change only the total, only the composition, only the phase split, and mutations made through the proxy, the linked
+that change only the total, only the composition, only the phase split, only WHICH phase holds a given content (whole-row
+move / swap on a stream with an empty phase), and mutations made through the proxy, the linked
 stream or the phase view instead of the stream itself.
 
 Transition oracle on every read: the value equals the value read from a FRESHLY CREATED stream with the same flows, phase(s),
@@ -160,6 +161,10 @@ class C14(System):
         elif kind == 'm':
             st.TA, st.TB = 350.0, 360.0
             s = tmo.MultiStream(None, T=st.TA, phases=('g', 'l'), l=[('Water', 1.0), ('Ethanol', 0.5)], g=[('Ethanol', 2.0)], thermo=A)
+        elif kind == 'm1':
+            # multi-phase stream with an EMPTY phase: everything is liquid
+            st.TA, st.TB = 350.0, 360.0
+            s = tmo.MultiStream(None, T=st.TA, phases=('g', 'l'), l=[('Water', 1.0), ('Ethanol', 2.5)], thermo=A)
         elif kind == 'mc':
             st.TA, st.TB = 350.0, 360.0
             s = tmo.Stream(None, Water=1.0, Ethanol=0.5, phase='l', T=st.TA, thermo=A)
@@ -229,7 +234,15 @@ class C14(System):
         acts += [('flow', 's', 1.0), ('flow', 's', 3.0)]
         acts += [('scale', 2.0), ('scale', 0.5)]
         if not multi: acts.append(('phase', 'g' if s.phase != 'g' else 'l'))
-        else: acts.append(('shift', 0.5))        # move half of the liquid water to the gas phase: only the phase split changes
+        else:
+            acts.append(('shift', 0.5))        # move half of the liquid water to the gas phase: only the phase split changes
+            if 'l' in s._imol._phases and 'g' in s._imol._phases:
+                # relocate the ENTIRE content of one phase row to the other / exchange two rows: T, P and the per-row compositions
+                # are kept, only WHICH phase holds them changes
+                acts += [('move', 'l', 'g', 'imol'), ('move', 'g', 'l', 'imol'), ('swap',)]
+                if not deep and hasattr(s, '_streams'):
+                    for src, dst in (('l', 'g'), ('g', 'l')):
+                        if not s._imol.data.rows[s._imol._phases.index(dst)].any(): acts.append(('move', src, dst, 'view'))
         if deep:
             if st.p is None: acts.append(('mkproxy',))
             if st.p is not None: acts += [('T', 'p', TA), ('T', 'p', TB)]
@@ -351,6 +364,22 @@ class C14(System):
             s.imol['l', 'Water'] = l_new
             s.imol['g', 'Water'] = tot - l_new
             return 'ok'
+        if op == 'move':
+            _, src, dst, via = a
+            IDs = tuple(s.chemicals.IDs)
+            if via == 'view':
+                s[dst].copy_flow(s[src], remove=True)
+            else:
+                vals = np.asarray(s.imol[src, IDs], float) + np.asarray(s.imol[dst, IDs], float)
+                s.imol[dst, IDs] = vals
+                s.imol[src, IDs] = 0.
+            return 'ok'
+        if op == 'swap':
+            IDs = tuple(s.chemicals.IDs)
+            lq = np.array(s.imol['l', IDs], float); gs = np.array(s.imol['g', IDs], float)
+            s.imol['l', IDs] = gs
+            s.imol['g', IDs] = lq
+            return 'ok'
         if op == 'addmol':
             if multi:
                 s.imol['l', 'Ethanol'] += a[1]
@@ -404,13 +433,15 @@ class C14(System):
         return repr((a[0], a[1] if a[0] in ('r', 'probe', 'T', 'flow') else None, obs, type(st.s).__name__, self._sat(st)))[:300]
 
 
-_CORE = (('l', 'none', False), ('g', 'none', False), ('m', 'none', False), ('mc', 'none', False),
+_CORE = (('l', 'none', False), ('g', 'none', False), ('m', 'none', False), ('mc', 'none', False), ('m1', 'none', False),
          ('l', 'proxy', True), ('m', 'proxy', True), ('l', 'link', True), ('mc', 'link', True), ('m', 'view', True))
+_DEEP = (('l', 'none', False), ('l', 'proxy', False), ('l', 'link', False), ('m', 'none', False), ('m', 'proxy', False),
+         ('m', 'link', False), ('m', 'view', False), ('m1', 'none', False), ('m1', 'view', False))
 SYSTEMS = [
-    # every mutator x every read (x every satellite) from all 26 cold and warm starts
-    C14('c14.wide', 'full', 2, 3, ('l', 'g', 'm', 'mc'), ('none', 'proxy', 'link', 'view'), tcap_t=900),
-    # the same alphabet, one level deeper, from the 9 core starts (satellites can also be created by actions)
-    C14('c14.full', 'full', 3, 4, ('l', 'g', 'm', 'mc'), ('none', 'proxy', 'link', 'view'), only=_CORE, tcap_q=150, tcap_t=900),
-    # reduced alphabet (restoring mutations, reads through every object), deep histories
-    C14('c14.deep', 'deep', 5, 7, ('l', 'm'), ('none', 'proxy', 'link', 'view'), warm=(False,), tcap_q=120, tcap_t=600),
+    # every mutator x every read (x every satellite) from all cold and warm starts
+    C14('c14.wide', 'full', 2, 3, ('l', 'g', 'm', 'mc', 'm1'), ('none', 'proxy', 'link', 'view'), tcap_t=900),
+    # the same alphabet, one level deeper, from the core starts (satellites can also be created by actions)
+    C14('c14.full', 'full', 3, 4, ('l', 'g', 'm', 'mc', 'm1'), ('none', 'proxy', 'link', 'view'), only=_CORE, tcap_q=150, tcap_t=900),
+    # reduced alphabet (restoring mutations, whole-phase moves, reads through every object), deep histories
+    C14('c14.deep', 'deep', 5, 7, ('l', 'm', 'm1'), ('none', 'proxy', 'link', 'view'), warm=(False,), only=_DEEP, tcap_q=120, tcap_t=600),
 ]
